@@ -57,34 +57,38 @@ fn multi_verify_total_1path() {
 }
 
 /// Two terminator paths of concrete position depths (d1, d2) with symbolic path bits, symbolic
-/// claimed depths (any usize), up to 2 siblings, any root.  Harnesses enumerate (d1, d2) over
-/// {0,1,2,3}^2 minus trivial repeats: this covers prefix-related paths, equal paths, claimed depths
-/// shorter/longer than the terminal and too few siblings.  Bounded in the position depths.
-fn two_terminators(d1: u16, d2: u16) {
+/// claimed depths (any usize), a concrete number `ns` of symbolic siblings, any root.  The
+/// harnesses enumerate small (d1, d2, ns): this covers prefix-related paths, equal paths, claimed
+/// depths shorter/longer than the terminal and too few siblings.  Bounded in these three numbers.
+fn two_terminators(d1: u16, d2: u16, ns: usize) {
     let a = MultiPathProof { terminal: PathProofTerminal::Terminator(trie_pos_with_depth(d1)), depth: kani::any() };
     let b = MultiPathProof { terminal: PathProofTerminal::Terminator(trie_pos_with_depth(d2)), depth: kani::any() };
-    let mp = MultiProof { paths: vec![a, b], siblings: any_siblings(2) };
+    let mut siblings: Vec<Node> = Vec::with_capacity(ns);
+    let mut i = 0;
+    while i < ns {
+        siblings.push(kani::any());
+        i += 1;
+    }
+    let mp = MultiProof { paths: vec![a, b], siblings };
     let root: Node = kani::any();
     let r = verify::<H>(&mp, root);
     kani::cover!(r.is_err(), "rejecting run reachable");
 }
 
 macro_rules! two_term_harness {
-    ($name:ident, $a:expr, $b:expr) => {
+    ($name:ident, $a:expr, $b:expr, $n:expr) => {
         #[kani::proof]
         #[kani::unwind(6)]
         fn $name() {
-            two_terminators($a, $b);
+            two_terminators($a, $b, $n);
         }
     };
 }
-two_term_harness!(multi_verify_total_2term_0_1, 0, 1);
-two_term_harness!(multi_verify_total_2term_1_1, 1, 1);
-two_term_harness!(multi_verify_total_2term_1_2, 1, 2);
-two_term_harness!(multi_verify_total_2term_2_1, 2, 1);
-two_term_harness!(multi_verify_total_2term_2_2, 2, 2);
-two_term_harness!(multi_verify_total_2term_2_3, 2, 3);
-two_term_harness!(multi_verify_total_2term_3_3, 3, 3);
+two_term_harness!(multi_verify_total_2term_1_2_s1, 1, 2, 1);
+two_term_harness!(multi_verify_total_2term_1_1_s0, 1, 1, 0);
+two_term_harness!(multi_verify_total_2term_2_2_s1, 2, 2, 1);
+two_term_harness!(multi_verify_total_2term_2_3_s2, 2, 3, 2);
+two_term_harness!(multi_verify_total_2term_0_1_s0, 0, 1, 0);
 
 #[cfg(test)]
 include!("/verif/.build/playback/core_multi_proof.inc");
